@@ -12,8 +12,13 @@ use crate::token_tree::Token;
 /// Returns an error if the range is not well-formed. If it is well-formed,
 /// the `callback` is called with each cid in the range.
 pub(crate) fn cid(start: &Token, end: &Token, mut callback: impl FnMut(u16)) -> Result<(), String> {
-    let start_cid = start.text.parse::<u16>().unwrap();
-    let end_cid = end.text.parse::<u16>().unwrap();
+    let parse = |t: &Token| {
+        t.text
+            .parse::<u16>()
+            .map_err(|_| format!("CID '{}' is out of range", t.text))
+    };
+    let start_cid = parse(start)?;
+    let end_cid = parse(end)?;
     if start_cid >= end_cid {
         return Err("Range end must be greater than start".into());
     }
